@@ -1,0 +1,56 @@
+// Copyright (c) 2019 Meng Huang (mhboy@outlook.com)
+// This package is licensed under a MIT license that can be found in the LICENSE file.
+
+package rpc
+
+import (
+	"errors"
+	"unsafe"
+)
+
+// errMalformed is returned when a message header is truncated or corrupted.
+var errMalformed = errors.New("rpc: malformed message")
+
+// decodeVarint decodes a varint from data and returns the value and the
+// number of bytes read. n == 0 means that data is truncated or corrupted.
+func decodeVarint(data []byte) (v uint64, n uint64) {
+	var s uint
+	for i, b := range data {
+		if i == 10 {
+			return 0, 0
+		}
+		if b < 0x80 {
+			if i == 9 && b > 1 {
+				return 0, 0
+			}
+			return v | uint64(b)<<s, uint64(i) + 1
+		}
+		v |= uint64(b&0x7f) << s
+		s += 7
+	}
+	return 0, 0
+}
+
+// decodeBytes decodes a varint length-prefixed field from data without
+// copying and returns the field and the number of bytes read.
+// n == 0 means that data is truncated or corrupted.
+func decodeBytes(data []byte) (b []byte, n uint64) {
+	length, m := decodeVarint(data)
+	if m == 0 || length > uint64(len(data))-m {
+		return nil, 0
+	}
+	if length == 0 {
+		return nil, m
+	}
+	return data[m : m+length], m + length
+}
+
+// decodeString is like decodeBytes but returns the field as a string
+// that shares the memory of data.
+func decodeString(data []byte) (s string, n uint64) {
+	b, n := decodeBytes(data)
+	if len(b) == 0 {
+		return "", n
+	}
+	return *(*string)(unsafe.Pointer(&b)), n
+}
